@@ -3,8 +3,10 @@
    requests. Definitions only.
 
    Goroutines of the code and their steps:
-     accept loop      LConnect (Accept + conns.Store), LAcceptExit (isListenClosed := 1)
-     recv (per conn)  LRead (a whole request parsed, numInvoke++), LEnqueue (JobQueue <- handler; pool only),
+     accept loop      LConnect (Accept + conns.Store), LAcceptErr (a non-timeout Accept error: logged, the loop goes on),
+                      LAcceptExit (isListenClosed := 1)
+     recv (per conn)  LReadBytes (conn.Read returned a whole request), LRead (handleConn: numInvoke++ — two steps, as in
+                      the code), LEnqueue (JobQueue <- handler; pool only),
                       LRecvExit (recv returns: isClosed = 1, read error, nothing buffered),
                       LRecvClose (deferred: numInvoke = 0 seen on a 500 ms tick, conn.Close, conns.Delete),
                       LRecvGone (same for a connection the poller closed already)
@@ -13,7 +15,7 @@
                       after every receive loop has returned)
      handler          LStart (pool 0: the goroutine runs), LFinish (response written, numInvoke--)
      Shutdown poller  LShutdown (isClosed := 1, OnShutdown), LPollBegin (tick: close message to every connection of the
-                      table when isListenClosed = 1, then := 2), LPollClose (idle connection with numInvoke = 0 closed),
+                      table when isListenClosed = 1, then := 2), LPollCheck (numInvoke = 0 and idle tested) and LPollClose (conn.Close()) — two steps, as in the code,
                       LPollReturn (CloseIdles returned true), LPollEnd (returned false), LCtxExpire (Shutdown returns;
                       the CloseIdles call in flight, if any, still finishes: LPollClose / LPollEnd stay enabled)
                       ghost earlypoll: some tick began while isListenClosed was still 0 (the accept loop had not yet
@@ -22,8 +24,8 @@
      clients          LSend (a client that resets its connection is not a label: for the server it is a connection of the
                       table like any other until its receive loop closes it; the close message is attempted on it, the
                       failed write does not concern the other connections — LPollBegin notifies each one on its own)
-   numInvoke of a connection is the length of the ghost list [busy]: a request is counted from the moment it is read
-   (LRead: handleConn increments before the handler is spawned or queued) until its response is written (LFinish),
+   numInvoke of a connection is the length of the ghost list [busy]: a request is counted from handleConn's increment
+   (LRead — a separate step after conn.Read returned it, LReadBytes) until its response is written (LFinish),
    i.e. also while it is Pending, Queued or in the dispatcher's hand. *)
 From Coq Require Import List NArith Bool Arith.
 Import ListNotations.
@@ -66,14 +68,20 @@ Record state := {
   hand : option req;               (* job held by the dispatcher *)
   running : list req;              (* jobs on workers / handler goroutines that run *)
   stopped : bool;                  (* dispatcher took `stop` *)
-  earlypoll : bool                 (* ghost: a poller tick began while the listener was still up (isListenClosed = 0) *)
+  earlypoll : bool;                (* ghost: a poller tick began while the listener was still up (isListenClosed = 0) *)
+  rdbuf : cid -> option rid;       (* recv: Read has returned this request, handleConn has not yet done numInvoke++ *)
+  chk : cid -> bool;               (* CloseIdles: numInvoke = 0 and idle were tested for this connection, Close not yet called *)
+  raced : bool                     (* ghost: one of the two windows above was hit (bytes read between the poller's test and
+                                      its Close, or the test made while a request was read and not yet counted) *)
 }.
 
 Inductive label :=
-| LConnect (c : cid) | LSend (c : cid) (r : rid) | LRead (c : cid) (r : rid) | LEnqueue (c : cid) (r : rid)
+| LConnect (c : cid) | LSend (c : cid) (r : rid) | LReadBytes (c : cid) (r : rid) | LRead (c : cid) (r : rid)
+| LEnqueue (c : cid) (r : rid)
 | LTake (c : cid) (r : rid) | LStart (c : cid) (r : rid) | LFinish (c : cid) (r : rid)
 | LShutdown | LAcceptExit | LPoolStop
-| LPollBegin | LPollClose (c : cid) | LPollReturn | LPollEnd
+| LAcceptErr
+| LPollBegin | LPollCheck (c : cid) | LPollClose (c : cid) | LPollReturn | LPollEnd
 | LRecvExit (c : cid) | LRecvClose (c : cid) | LRecvGone (c : cid)
 | LCtxExpire | LExit.
 
@@ -92,25 +100,40 @@ Variable early : bool.   (* true: the pool is released when the accept loop exit
 Definition init : state :=
   {| ph := SRun; listen := 0; inpoll := false; known := []; cst := fun _ => CNone; inmap := fun _ => false;
      notified := fun _ => false; polled := fun _ => false; busy := fun _ => []; pend := fun _ => None;
-     rs := fun _ _ => Fresh; queue := []; hand := None; running := []; stopped := false; earlypoll := false |}.
+     rs := fun _ _ => Fresh; queue := []; hand := None; running := []; stopped := false; earlypoll := false;
+     rdbuf := fun _ => None; chk := fun _ => false; raced := false |}.
 
 Definition set_conn (s : state) (c : cid) (st : cstate) (im nt pl : bool) : state :=
   {| ph := ph s; listen := listen s; inpoll := inpoll s; known := known s; cst := upd (cst s) c st;
      inmap := upd (inmap s) c im; notified := upd (notified s) c nt; polled := upd (polled s) c pl;
      busy := busy s; pend := pend s; rs := rs s; queue := queue s; hand := hand s; running := running s;
-     stopped := stopped s; earlypoll := earlypoll s |}.
+     stopped := stopped s; earlypoll := earlypoll s; rdbuf := rdbuf s; chk := chk s; raced := raced s |}.
 
 Definition set_srv (s : state) (p : sphase) (l : nat) (ip : bool) : state :=
   {| ph := p; listen := l; inpoll := ip; known := known s; cst := cst s; inmap := inmap s; notified := notified s;
      polled := polled s; busy := busy s; pend := pend s; rs := rs s; queue := queue s; hand := hand s;
-     running := running s; stopped := stopped s; earlypoll := earlypoll s |}.
+     running := running s; stopped := stopped s; earlypoll := earlypoll s; rdbuf := rdbuf s; chk := chk s;
+     raced := raced s |}.
 
 (* request/pool part *)
 Definition set_req (s : state) (c : cid) (r : rid) (x : rstate) (b : list rid) (p : option rid)
                    (q : list req) (h : option req) (ru : list req) : state :=
   {| ph := ph s; listen := listen s; inpoll := inpoll s; known := known s; cst := cst s; inmap := inmap s;
      notified := notified s; polled := polled s; busy := upd (busy s) c b; pend := upd (pend s) c p;
-     rs := upd2 (rs s) c r x; queue := q; hand := h; running := ru; stopped := stopped s; earlypoll := earlypoll s |}.
+     rs := upd2 (rs s) c r x; queue := q; hand := h; running := ru; stopped := stopped s; earlypoll := earlypoll s;
+     rdbuf := rdbuf s; chk := chk s; raced := raced s |}.
+
+(* the two windows: what recv holds uncounted, what the poller has tested and not yet closed, and the ghost flag *)
+Definition set_aux (s : state) (rd : cid -> option rid) (ck : cid -> bool) (rc : bool) : state :=
+  {| ph := ph s; listen := listen s; inpoll := inpoll s; known := known s; cst := cst s; inmap := inmap s;
+     notified := notified s; polled := polled s; busy := busy s; pend := pend s; rs := rs s; queue := queue s;
+     hand := hand s; running := running s; stopped := stopped s; earlypoll := earlypoll s;
+     rdbuf := rd; chk := ck; raced := rc |}.
+
+Definition is_some {A} (o : option A) : bool := match o with Some _ => true | None => false end.
+
+(* the poller handles one connection at a time: no test is pending when a CloseIdles call ends *)
+Definition nochk (s : state) : bool := forallb (fun c => negb (chk s c)) (known s).
 
 Definition all_closed (s : state) : bool :=
   forallb (fun c => negb (inmap s c) || cstate_eqb (cst s c) CClosed) (known s).
@@ -137,18 +160,31 @@ Definition step (s : state) (l : label) : option state :=
               {| ph := ph s'; listen := listen s'; inpoll := inpoll s'; known := c :: known s'; cst := cst s';
                  inmap := inmap s'; notified := notified s'; polled := polled s'; busy := busy s'; pend := pend s';
                  rs := rs s'; queue := queue s'; hand := hand s'; running := running s'; stopped := stopped s';
-                 earlypoll := earlypoll s' |})
+                 earlypoll := earlypoll s'; rdbuf := rdbuf s'; chk := chk s'; raced := raced s' |})
       else None
   | LSend c r =>
       if rstate_eqb (rs s c r) Fresh then
         Some (set_req s c r InFlight (busy s c) (pend s c) (queue s) (hand s) (running s))
       else None
+  | LReadBytes c r =>
+      (* recv: conn.Read returned the bytes of request r (a whole request parsed); handleConn not yet entered *)
+      match cst s c, rs s c r, pend s c, rdbuf s c with
+      | COpen, InFlight, None, None => Some (set_aux s (upd (rdbuf s) c (Some r)) (chk s) (raced s || chk s c))
+      | _, _, _, _ => None end
   | LRead c r =>
-      match cst s c, rs s c r, pend s c with
-      | COpen, InFlight, None =>
-          if W =? 0 then Some (set_req s c r Spawned (r :: busy s c) None (queue s) (hand s) (running s))
-          else Some (set_req s c r Pending (r :: busy s c) (Some r) (queue s) (hand s) (running s))
-      | _, _, _ => None end
+      (* handleConn: numInvoke++ and the handler spawned / on its way to JobQueue — also on a connection that the
+         poller closed in between *)
+      match rdbuf s c, rs s c r with
+      | Some r', InFlight =>
+          if r' =? r then
+            if W =? 0 then
+              Some (set_aux (set_req s c r Spawned (r :: busy s c) None (queue s) (hand s) (running s))
+                            (upd (rdbuf s) c None) (chk s) (raced s))
+            else
+              Some (set_aux (set_req s c r Pending (r :: busy s c) (Some r) (queue s) (hand s) (running s))
+                            (upd (rdbuf s) c None) (chk s) (raced s))
+          else None
+      | _, _ => None end
   | LEnqueue c r =>
       match pend s c, rs s c r with
       | Some r', Pending =>
@@ -183,6 +219,9 @@ Definition step (s : state) (l : label) : option state :=
   | LShutdown => match ph s with SRun => Some (set_srv s SDown (listen s) false) | _ => None end
   | LAcceptExit =>
       if closed_flag (ph s) && (listen s =? 0) then Some (set_srv s (ph s) 1 (inpoll s)) else None
+  | LAcceptErr =>
+      (* Accept returned an error that is not a timeout (EMFILE ...): logged, the loop goes on *)
+      if listen s =? 0 then Some s else None
   | LPoolStop =>
       (* Handle after the accept loop: the unrepaired code releases the pool at once; the repaired code first waits
          for every receive loop to return (recvDone.Wait()), i.e. no connection is left in the table *)
@@ -191,7 +230,7 @@ Definition step (s : state) (l : label) : option state :=
                   Some {| ph := ph s; listen := listen s; inpoll := inpoll s; known := known s; cst := cst s;
                           inmap := inmap s; notified := notified s; polled := polled s; busy := busy s; pend := pend s;
                           rs := rs s; queue := queue s; hand := hand s; running := running s; stopped := true;
-                          earlypoll := earlypoll s |}
+                          earlypoll := earlypoll s; rdbuf := rdbuf s; chk := chk s; raced := raced s |}
                 else None
       | Some _ => None end
   | LPollBegin =>
@@ -201,22 +240,33 @@ Definition step (s : state) (l : label) : option state :=
         Some {| ph := ph s; listen := (if listen s =? 1 then 2 else listen s); inpoll := true; known := known s;
                 cst := cst s; inmap := inmap s; notified := nt; polled := (fun _ => true); busy := busy s;
                 pend := pend s; rs := rs s; queue := queue s; hand := hand s; running := running s;
-                stopped := stopped s; earlypoll := earlypoll s || (listen s =? 0) |}
+                stopped := stopped s; earlypoll := earlypoll s || (listen s =? 0); rdbuf := rdbuf s; chk := chk s;
+                raced := raced s |}
       else None
-  | LPollClose c =>
+  | LPollCheck c =>
+      (* CloseIdles, one connection of the Range: numInvoke = 0 (and idle long enough) tested *)
       if poller_live (ph s) && inpoll s && inmap s c then
         match cst s c, busy s c with
-        | COpen, [] | CExited, [] => Some (set_conn s c CClosed true (notified s c) (polled s c))
+        | COpen, [] | CExited, [] => Some (set_aux s (rdbuf s) (upd (chk s) c true) (raced s || is_some (rdbuf s c)))
         | _, _ => None end
       else None
+  | LPollClose c =>
+      (* ... and conn.Close() on it, whatever happened since the test *)
+      if chk s c then
+        match cst s c with
+        | COpen | CExited =>
+            Some (set_aux (set_conn s c CClosed true (notified s c) (polled s c)) (rdbuf s) (upd (chk s) c false) (raced s))
+        | CClosed => Some (set_aux s (rdbuf s) (upd (chk s) c false) (raced s))   (* its receive loop closed it meanwhile *)
+        | CNone => None end
+      else None
   | LPollReturn =>
-      if is_down (ph s) && inpoll s && all_closed s then Some (set_srv s SRetDrained (listen s) false) else None
+      if is_down (ph s) && inpoll s && all_closed s && nochk s then Some (set_srv s SRetDrained (listen s) false) else None
   | LPollEnd =>
-      if poller_live (ph s) && inpoll s then Some (set_srv s (ph s) (listen s) false) else None
+      if poller_live (ph s) && inpoll s && nochk s then Some (set_srv s (ph s) (listen s) false) else None
   | LRecvExit c =>
-      match cst s c, pend s c with
-      | COpen, None => if closed_flag (ph s) then Some (set_conn s c CExited true (notified s c) false) else None
-      | _, _ => None end
+      match cst s c, pend s c, rdbuf s c with
+      | COpen, None, None => if closed_flag (ph s) then Some (set_conn s c CExited true (notified s c) false) else None
+      | _, _, _ => None end
   | LRecvClose c =>
       match cst s c, busy s c with
       | CExited, [] =>
@@ -224,12 +274,14 @@ Definition step (s : state) (l : label) : option state :=
           if polled s c || returned (ph s) then Some (set_conn s c CClosed false (notified s c) (polled s c)) else None
       | _, _ => None end
   | LRecvGone c =>
-      match cst s c with
-      | CClosed => if inmap s c then Some (set_conn s c CClosed false (notified s c) (polled s c)) else None
-      | _ => None end
+      (* the receive loop of a connection the poller closed: Read fails, the loop returns, its deferred function
+         waits for numInvoke = 0 and removes the connection from the table *)
+      match cst s c, busy s c, rdbuf s c with
+      | CClosed, [], None => if inmap s c then Some (set_conn s c CClosed false (notified s c) (polled s c)) else None
+      | _, _, _ => None end
   | LCtxExpire => if is_down (ph s) then Some (set_srv s SRetCtx (listen s) (inpoll s)) else None
   | LExit => match ph s with
-             | SRetDrained | SRetCtx => Some (set_srv s SExited (listen s) false)
+             | SRetDrained | SRetCtx => Some (set_srv s SExited (listen s) (inpoll s))
              | _ => None end
   end.
 
@@ -295,8 +347,10 @@ Definition ensure_read (s : option state) (c : cid) (r : rid) : option state :=
   | None => None
   | Some s =>
       if unanswered (rs s c r) || rstate_eqb (rs s c r) Answered then Some s
-      else match stepR (pump s) (LRead c r) with
-           | Some s' => Some (pump s')
+      else match stepR (pump s) (LReadBytes c r) with
+           | Some s0 => match stepR s0 (LRead c r) with
+                        | Some s' => Some (pump s')
+                        | None => None end
            | None => None end
   end.
 
